@@ -3,7 +3,7 @@ from runner import Ob
 from props.common import run_with
 from props.parsecommon import parse_step_obs
 from props.apicommon import api_obs
-from props.inclcommon import push_obs, pop_obs
+from props.inclcommon import push_obs, pop_obs, rest_obs
 
 NEEDS_LEXER = True
 FUNCS = ["cfg_free", "cfg_free_value", "cfg_free_opt_array", "cfg_free_searchpath", "cfg_parse_internal (every return: error label, EOF, '}')", "call_function", "cfg_setopt (PTR replace, SEC replace)",
@@ -32,6 +32,8 @@ def build_obs(tier, tables):
     obs += apio
     # include files: opened == closed on every failure exit, exactly the included file is closed at its end
     obs += push_obs("c07") + [o for o in pop_obs("c07") if "own" in o.key]
+    # what is left open when a parse is aborted inside an included file (recorded finding)
+    obs += [o for o in rest_obs("c07", depths=(1,)) if "-sc0-qs0-" in o.key]
     return obs
 
 
